@@ -1,13 +1,14 @@
 /-
   C16 driver: JSON request → model call (XgiModel/C16/Gen.lean) → JSON.
-  Responses: {"nodes":[…], "edges":[{"$set":[…]},…], "rest":k}  (k = number of unconsumed oracle items),
+  Responses: {"nodes":[…], "edges":[{"$set":[…]},…], "rest":k}  (k = number of unconsumed oracle items); node list and
+  edge list both come from the model's network (`GNet`, XgiModel/C16/Net.lean) — the driver adds nothing of its own,
   decoders: {"c":[…]} / {"all":[…],"ref":[…]}.  Inputs outside the model: {"out":"unmodelled"}.
   Generators of GenRand.lean: an exception of the Python code is answered {"out":"err:<Class>"}; chung_lu / dcsbm answer
   {"nodes":[…in view order], "edges":[[id, {"$set": members}],… in creation order], "pairs":[[v,u],…], "rest":k};
   rationals travel as [numerator, denominator] (requests) and "p/q" strings (responses).
 -/
 import XgiModel.Proto
-import XgiModel.C16.GenRand
+import XgiModel.C16.Net
 open Lean Xgi.Proto
 
 namespace Xgi.C16.Drive
@@ -43,9 +44,18 @@ def optJ : Option (List Nat) → Json
 def netJ (nodes : List Nat) (edges : List (List Nat)) (rest : Nat) : Json :=
   Json.mkObj [("nodes", natsJ nodes), ("edges", Json.arr (edges.map setJ).toArray), ("rest", natJson rest)]
 
-def answer {α} (nodes : List Nat) : Option (List (List Nat) × List α) → Json
+def gnetJ (net : GNet) (rest : Nat) : Json := netJ net.nodes net.edges rest
+
+def answer {α} : Option (GNet × List α) → Json
   | none => unmodelled
-  | some (es, rest) => netJ nodes es rest.length
+  | some (net, rest) => gnetJ net rest.length
+
+/-- `order` argument: absent / null = `None`, else a list of naturals -/
+def getOrder? (j : Json) : Option (Option (List Nat)) :=
+  match getField? j "order" with
+  | none => some none
+  | some .null => some none
+  | some x => (natsOfJson? x).map some
 
 def ratJ (q : Rat) : Json := Json.str (toString q.num ++ "/" ++ toString q.den)
 def errJ : Err → Json
@@ -82,8 +92,8 @@ def getPairs? (j : Json) (k : String) : Option (List (Nat × Nat)) := do
 def lookupD (l : List (Nat × Nat)) (i : Nat) : Nat := ((l.find? (fun p => p.1 == i)).map (·.2)).getD 0
 
 /-- the bipartite answer of chung_lu / dcsbm: node list, edge dict (id, member set), the incidence trace -/
-def bipJ (nodes : List Nat) : List (Nat × Nat) × List Nat × List Rat → Json
-  | (pairs, g, r) => Json.mkObj [("nodes", natsJ nodes),
+def bipJ (k1 : List (Nat × Nat)) : List (Nat × Nat) × List Nat × List Rat → Json
+  | (pairs, g, r) => Json.mkObj [("nodes", natsJ (bipNodes k1 pairs)),
       ("edges", Json.arr ((buildEdges pairs).map (fun e => Json.arr #[natJson e.1, setJ e.2])).toArray),
       ("pairs", Json.arr (pairs.map (fun p => natsJ [p.1, p.2])).toArray),
       ("rest", natJson (g.length + r.length))]
@@ -123,77 +133,76 @@ def handleReq (j : Json) : Option Json := do
       | none => unmodelled
       | some (is, rest) => Json.mkObj [("indices", natsJ is), ("rest", natJson rest.length)])
   | "fast_random_hypergraph" =>
-    let n ← getNat? j "n"; let rs ← getNatss? j "rounds"; let gaps ← getNats? j "gaps"
-    let rounds ← rs.mapM (fun r => match r with
-      | [size, pk] => (probOfNat? pk).map (fun p => (size, p))
-      | _ => none)
-    pure (answer (List.range n) (fastRandom n rounds gaps))
+    let n ← getNat? j "n"; let pks ← getNats? j "pks"; let order ← getOrder? j; let gaps ← getNats? j "gaps"
+    let ps ← pks.mapM probOfNat?
+    pure (resJ (fun r => gnetJ r.1 r.2.length) (fastRandomNet n ps order gaps))
   | "random_hypergraph" =>
-    let n ← getNat? j "n"; let sizes ← getNats? j "sizes"; let coins ← getBools? j "coins"
-    pure (answer (List.range n) (coinRandom n sizes coins))
+    let n ← getNat? j "n"; let pks ← getNats? j "pks"; let order ← getOrder? j; let coins ← getBools? j "coins"
+    let ps ← pks.mapM probOfNat?
+    pure (resJ (fun r => gnetJ r.1 r.2.length) (coinRandomNet n ps order coins))
   | "uniform_erdos_renyi_hypergraph" =>
     let n ← getNat? j "n"; let m ← getNat? j "m"; let multi ← getBool? j "multi"
     let p ← (← getNat? j "pk") |> probOfNat?
     let gaps ← getNats? j "gaps"
     if m = 0 then pure unmodelled else
-    pure (answer (List.range n) (erdosRenyi n m multi p gaps))
+    pure (answer (erdosRenyiNet n m multi p gaps))
   | "uniform_HSBM" =>
     let m ← getNat? j "m"; let sizes ← getNats? j "sizes"; let pks ← getNats? j "pks"
     let ps ← pks.mapM probOfNat?
     let gaps ← getNats? j "gaps"
     if ps.length ≠ sizes.length ^ m then pure unmodelled else
-    pure (answer (List.range (sumL sizes)) (hsbm m sizes ps gaps))
+    pure (answer (hsbmNet m sizes ps gaps))
   | "complete_hypergraph" =>
     let n ← getNat? j "n"
     match getNat? j "order", getNat? j "max_order" with
-    | some o, none => pure (netJ (List.range n) (completeOrder n o) 0)
+    | some o, none => pure (gnetJ (completeOrderNet n o) 0)
     | none, some mo =>
       let s ← getBool? j "singletons"
-      pure (netJ (List.range n) (completeMax n mo s) 0)
+      pure (gnetJ (completeMaxNet n mo s) 0)
     | _, _ => none
   | "uniform_hypergraph_configuration_model" =>
     let kk ← getNatss? j "k"; let m ← getNat? j "m"; let bump ← getNats? j "bump"; let choices ← getNatss? j "choices"
     let k ← kk.mapM (fun p => match p with | [i, d] => some (i, d) | _ => none)
     if ¬ (k.map (·.1)).Nodup then pure unmodelled else
-    pure (match configModel k m bump choices with
+    pure (match configNet k m bump choices with
       | none => unmodelled
-      | some es => netJ (k.map (·.1)) es 0)
+      | some net => gnetJ net 0)
   | "trivial_hypergraph" =>
     let n ← getNat? j "n"
-    pure (netJ (trivialNodes n) [] 0)
+    pure (gnetJ (trivialNet n) 0)
   | "ring_lattice" =>
     let n ← getNat? j "n"; let d ← getNat? j "d"; let k ← getNat? j "k"; let l ← getNat? j "l"
-    pure (netJ (List.range n) (ringLattice n d k l) 0)
+    pure (gnetJ (ringLatticeNet n d k l) 0)
   | "sunflower" =>
     let l ← getNat? j "l"; let c ← getNat? j "c"; let m ← getNat? j "m"
     if m < c then pure unmodelled else
-    pure (netJ (dedup (sunflower l c m).flatten) (sunflower l c m) 0)
+    pure (gnetJ (sunflowerNet l c m) 0)
   | "star_clique" =>
     let a ← getNat? j "n_star"; let b ← getNat? j "n_clique"; let d ← getNat? j "d_max"
     if a = 0 ∨ b = 0 ∨ d + 1 > b then pure unmodelled else
-    pure (netJ (List.range (a + b)) (starClique a b d) 0)
+    pure (gnetJ (starCliqueNet a b d) 0)
   | "flag_complex" =>
     let n ← getNat? j "n"; let es ← getNatss? j "edges"; let mo ← getNat? j "max_order"
     if es.any (fun e => e.length != 2) then pure unmodelled else
-    pure (netJ (List.range n) (flagComplex n (adjOf es) mo) 0)
+    pure (gnetJ (flagComplexNet n (adjOf es) mo) 0)
   | "flag_complex_ps" =>
     let n ← getNat? j "n"; let es ← getNatss? j "edges"; let mo ← getNat? j "max_order"; let picked ← getNatss? j "picked"
     if es.any (fun e => e.length != 2) then pure unmodelled else
-    pure (match flagPromoted n (adjOf es) mo picked with
+    pure (match flagPromotedNet n (adjOf es) mo picked with
       | none => unmodelled
-      | some K => netJ (List.range n) K 0)
+      | some net => gnetJ net 0)
   | "random_simplicial_complex" =>
     let n ← getNat? j "n"; let sizes ← getNats? j "sizes"; let coins ← getBools? j "coins"
-    pure (answer (List.range n) (randomSC n sizes coins))
+    pure (answer (randomSCNet n sizes coins))
   | "watts_strogatz_hypergraph" =>
     let n ← getNat? j "n"; let d ← getNat? j "d"; let k ← getNat? j "k"; let l ← getNat? j "l"
     let coins ← getBools? j "coins"; let choices ← getNatss? j "choices"
     if d = 0 then pure unmodelled else
-    pure (resJ (fun es => netJ (List.range n) es 0) (wattsStrogatz n d k l coins choices))
+    pure (resJ (fun net => gnetJ net 0) (wattsStrogatzNet n d k l coins choices))
   | "chung_lu_hypergraph" =>
     let k1 ← getPairs? j "k1"; let k2 ← getPairs? j "k2"; let gaps ← getNats? j "gaps"; let rs ← getRats? j "rs"
     if ¬ (k1.map (·.1)).Nodup ∨ ¬ (k2.map (·.1)).Nodup then pure unmodelled else
-    pure (resJ (bipJ ((sortByDeg k1).map (·.1))) (chungLu k1 k2 gaps rs))
+    pure (resJ (bipJ k1) (chungLu k1 k2 gaps rs))
   | "dcsbm_hypergraph" =>
     let k1 ← getPairs? j "k1"; let k2 ← getPairs? j "k2"; let g1 ← getPairs? j "g1"; let g2 ← getPairs? j "g2"
     let om ← getNatss? j "omega"
@@ -206,16 +215,16 @@ def handleReq (j : Json) : Option Json := do
         ∨ ¬ (k2.all (fun p => p.1 ∈ g2.map (·.1))) ∨ ¬ (g2.all (fun p => p.1 ∈ k2.map (·.1)))
         ∨ ¬ (g1.all (fun p => p.2 < rows)) ∨ ¬ (g2.all (fun p => p.2 < cols)) then pure unmodelled else
     let omega : Nat → Nat → Nat := fun a b => (om.getD a []).getD b 0
-    pure (resJ (bipJ ((sortByDeg k1).map (·.1))) (dcsbm k1 k2 (lookupD g1) (lookupD g2) omega gaps rs))
+    pure (resJ (bipJ k1) (dcsbm k1 k2 (lookupD g1) (lookupD g2) omega gaps rs))
   | "uniform_HPPM" =>
     let n ← getNat? j "n"; let m ← getNat? j "m"; let k ← getRat? j "k"; let eps ← getRat? j "epsilon"; let rho ← getRat? j "rho"
     let gaps ← getNats? j "gaps"
     if m = 0 then pure unmodelled else
     let t := hppmTensor m (hppmIn n m k eps rho) (hppmOut n m k eps)
-    pure (resJ (fun r => Json.mkObj [("nodes", natsJ (List.range n)), ("edges", Json.arr (r.1.map setJ).toArray),
+    pure (resJ (fun r => Json.mkObj [("nodes", natsJ r.1.nodes), ("edges", Json.arr (r.1.edges.map setJ).toArray),
         ("rest", natJson r.2.length), ("tensor", Json.arr (t.map ratJ).toArray), ("sizes", natsJ (hppmSizes n rho)),
         ("pks", natsJ (t.map (fun x => match classify x with | .zero => 0 | .one => 1 | .mid => 2)))])
-      (hppm n m k eps rho gaps))
+      (hppmNet n m k eps rho gaps))
   | "uniform_erdos_renyi_degree" =>
     let n ← getNat? j "n"; let m ← getNat? j "m"; let p ← getRat? j "p"; let multi ← getBool? j "multi"
     let gaps ← getNats? j "gaps"
@@ -224,8 +233,8 @@ def handleReq (j : Json) : Option Json := do
       | .ok (.q x) => ratJ x
       | .ok .nan => Json.str "nan"
       | _ => Json.null
-    pure (resJ (fun r => Json.mkObj [("nodes", natsJ (List.range n)), ("edges", Json.arr (r.1.map setJ).toArray),
-        ("rest", natJson r.2.length), ("q", qj)]) (erdosRenyiDeg n m p multi gaps))
+    pure (resJ (fun r => Json.mkObj [("nodes", natsJ r.1.nodes), ("edges", Json.arr (r.1.edges.map setJ).toArray),
+        ("rest", natJson r.2.length), ("q", qj)]) (erdosRenyiDegNet n m p multi gaps))
   | _ => none
 
 def handle (st : Unit) (j : Json) : Unit × Json :=
